@@ -307,6 +307,7 @@ def tla_graph(g):
                 cdat.append("")
         ops.append({"code": o["code"] if o["code"] != "CUSTOM" else "CUSTOM:" + o["custom_code"],
                     "ver": o["version"], "opts": o["opts_digest"], "copt": o["custom_opts"],
+                    "optv": {k: repr(v) for k, v in sorted(o["opts_nondefault"].items())},     # explanation only
                     "ins": o["inputs"], "outs": o["outputs"], "inter": o["intermediates"], "cdat": cdat,
                     "tsig": [sig(T[i]) if i >= 0 else [] for i in o["in_idx"] + o["out_idx"] + o["inter_idx"]]})
     return {"ins": iface(sg["inputs"]), "outs": iface(sg["outputs"]), "ops": ops,
@@ -423,7 +424,7 @@ def explain_preserve(name, ev):
         for i, o in enumerate(S["ops"], 1):
             if i in absorbed:
                 continue
-            same = [q for q in O["ops"] if q == o]
+            same = [q for q in O["ops"] if all(q[f] == o[f] for f in q if f != "optv")]
             if len(same) == 1:
                 continue
             cands = [q for q in O["ops"] if q["code"] == o["code"] and q["outs"] == o["outs"]]
@@ -437,6 +438,10 @@ def explain_preserve(name, ev):
             if diff == ["ver"]:      # which version did it get: the highest one used by this operator type, or another
                 hi = max(q["ver"] for q in S["ops"] if q["code"] == o["code"])
                 tag = "ver=highest-of-type" if cands[0]["ver"] == hi else "ver=other"
+            if "opts" in diff:      # which members of the builtin options changed (value in the source -> in the output)
+                a, b = o.get("optv", {}), cands[0].get("optv", {})
+                ch = ["%s:%s->%s" % (k, a.get(k, "default"), b.get(k, "default")) for k in sorted(set(a) | set(b)) if a.get(k) != b.get(k)]
+                tag = tag.replace("opts", "opts[%s]" % ";".join(ch))
             return ("KeptOnce|%s|%s" % (tag, o["code"]),
                     "operator producing %s changed in %s: %s -> %s" % (o["outs"], diff, {f: o[f] for f in diff},
                                                                       {f: cands[0][f] for f in diff}))
@@ -471,7 +476,11 @@ def explain_preserve(name, ev):
 
 
 def sig_diff(a, b):
-    return [f for f, x, y in zip(flatmodel.TENSOR_FIELDS, a, b) if x != y] or ["length"]
+    """names of the tensor-table members that differ, followed by a qualifier of the SOURCE tensor (element type, whether it
+    carries a scale): the identity of a finding must not cover the loss of the same member on a different kind of tensor"""
+    d = [f for f, x, y in zip(flatmodel.TENSOR_FIELDS, a, b) if x != y] or ["length"]
+    src = dict(zip(flatmodel.TENSOR_FIELDS, a))
+    return d + ["@%s/%s" % (src.get("type", "?"), "scaled" if src.get("scale") else "noscale")]
 
 
 def sig_diff_text(a, b):
